@@ -20,8 +20,9 @@ type Case struct {
 	Cap   int    `json:"cap,omitempty"`
 	Bsize int    `json:"bsize,omitempty"`
 	Tick  bool   `json:"tick,omitempty"`
-	Fmt   string `json:"fmt,omitempty"` // ljh22 | ljh3 | off
-	N     int    `json:"n,omitempty"`   // samples per record (number of bases for off)
+	Fmt   string `json:"fmt,omitempty"`   // ljh22 | ljh3 | off
+	N     int    `json:"n,omitempty"`     // samples per record (number of bases for off)
+	Hdr   int    `json:"hdr,omitempty"`   // publish/off: samples per projector (size of the OFF header payload)
 	Align bool   `json:"align,omitempty"` // pipe: raise N until the consumer stalls holding the first bytes of a record
 	Ops   []GOp  `json:"ops"`
 }
@@ -328,6 +329,11 @@ func pipeCorpus() []Case {
 		{Kind: "pubflush", Fmt: "22+off", N: 40, Ops: []GOp{{Op: "B", N: 7}, op("F"), {Op: "B", N: 30}, op("P"), {Op: "B", N: 3}}},
 		{Kind: "pubflush", Fmt: "22+3+off", N: 100, Ops: []GOp{{Op: "B", N: 1}, op("F"), {Op: "B", N: 50}, op("F"), op("P"), {Op: "B", N: 9}, op("F")}},
 		// ... and through DataPublisher.PublishData
+		// stall (records rejected), recovery, more records, only then Flush / SetPause / Remove
+		{Kind: "pub", Fmt: "puboff", N: 250, Ops: []GOp{op("S"), {Op: "B", N: 1180}, op("O"), {Op: "Y", N: 30000}, {Op: "B", N: 30}, op("F"), {Op: "B", N: 5}}},
+		{Kind: "pub", Fmt: "pub22", N: 250, Ops: []GOp{op("S"), {Op: "B", N: 1300}, {Op: "A", N: 300000}, {Op: "Y", N: 30000}, {Op: "B", N: 40}, op("P"), {Op: "B", N: 5}, op("S"), {Op: "B", N: 300}, {Op: "K", N: 300}}},
+		// an OFF header of more than 4 MiB (projectors and basis), a few records, no stall
+		{Kind: "pub", Fmt: "puboff", N: 64, Hdr: 4200, Ops: []GOp{{Op: "B", N: 6}, op("F"), {Op: "B", N: 3}}},
 		{Kind: "pub", Fmt: "pub22", N: 250, Ops: []GOp{op("S"), {Op: "B", N: 1300}}},
 		{Kind: "pub", Fmt: "pub3", N: 250, Ops: []GOp{op("S"), {Op: "B", N: 1300}, op("F"), {Op: "B", N: 7}}},
 		{Kind: "pub", Fmt: "puboff", N: 250, Ops: []GOp{op("S"), {Op: "B", N: 1180}, op("P"), {Op: "B", N: 5}}},
@@ -386,6 +392,21 @@ func gen(seed uint64, tier string) []interface{} {
 		for i := 0; i < 20; i++ {
 			add(genPubFlush(r.Fork()))
 		}
+		// payloads from tiny to several MiB through asyncbufio.Writer (every byte is replayed inside Coq: few)
+		for _, n := range []int{65536, 1 << 20, 4<<20 + 4096} {
+			add(Case{Kind: "gate", Cap: 3, Bsize: r.Pick([]int{4096, 65536}), Ops: []GOp{w(1, 5), w(n, 9), w(0, 1), w(7, 30), {Op: "F"}, {Op: "D"}}})
+		}
+		// publisher-level path on a stalling disk: stall, recovery, more records, then Flush / SetPause / Remove
+		for i, f := range []string{"pub22", "pub3", "puboff", "puboff", "pub3", "pub22"} {
+			c := genPub(r.Fork(), f)
+			c.Ops = append(c.Ops, GOp{Op: "O"}, GOp{Op: "Y", N: r.Range(5000, 40000)}, GOp{Op: "B", N: r.Range(5, 60)},
+				GOp{Op: []string{"F", "P"}[i%2]}, GOp{Op: "B", N: r.Range(1, 9)})
+			if i%3 == 0 {
+				c.Ops = append(c.Ops, GOp{Op: "S"}, GOp{Op: "B", N: 400}, GOp{Op: "K", N: r.Pick([]int{200, 6500})})
+			}
+			add(c)
+		}
+		add(Case{Kind: "pub", Fmt: "puboff", N: 100, Hdr: 3000, Ops: []GOp{{Op: "S"}, {Op: "B", N: 4}, {Op: "O"}, {Op: "F"}, {Op: "B", N: 3}}})
 	} else {
 		add(genPubFlush(r.Fork()))
 	}
